@@ -15,11 +15,14 @@
 
 """Functions for the CLI portion of manipulating headers."""
 
+import contextlib
 import logging
+import os
 import sys
 from pathlib import Path
 from typing import IO, Optional, Type, cast
 
+from binaryornot.check import is_binary
 from jinja2 import Environment, FileSystemLoader, Template
 from jinja2.exceptions import TemplateNotFound
 
@@ -32,7 +35,11 @@ from .comment import (
     get_comment_style,
 )
 from .exceptions import CommentCreateError, MissingReuseInfoError
-from .extract import contains_reuse_info, detect_line_endings
+from .extract import (
+    contains_reuse_info,
+    detect_line_endings,
+    reuse_info_of_file,
+)
 from .header import add_new_header, find_and_replace_header
 from .i18n import _
 from .project import Project
@@ -64,6 +71,18 @@ def find_template(project: Project, name: str) -> Template:
         except TemplateNotFound:
             pass
     raise TemplateNotFound(name)
+
+
+def own_reuse_info(path: StrPath) -> ReuseInfo:
+    """The REUSE information that the file at *path* declares itself. A new
+    .license file next to it hides that information from the linter, so it
+    is carried over into the .license file.
+    """
+    path = Path(path)
+    with contextlib.suppress(OSError, UnicodeError):
+        if not is_binary(str(path)):
+            return reuse_info_of_file(path, path, path.parent)
+    return ReuseInfo()
 
 
 def add_header_to_file(
@@ -100,7 +119,10 @@ def add_header_to_file(
                 ).format(path=path)
             )
             out.write("\n")
-            path = _determine_license_suffix_path(path)
+            new_path = _determine_license_suffix_path(path)
+            if not os.path.lexists(new_path):
+                reuse_info = reuse_info | own_reuse_info(path)
+            path = new_path
             comment_style = EmptyCommentStyle
             if Path(path).is_symlink():
                 # Never write through a symlink.
